@@ -10,6 +10,5 @@ opaque_types!(Address, DataOption, ScriptRef, CborContainerType, TransactionInpu
     ExUnitPrices, UnitInterval, LinearFee, ReferenceInputsMap, TransactionUnspentOutputs, ChangeConfigRest);
 pub type SlotBigNum = BigNum;
 
-macro_rules! clone_eq { ($($n:ident),* $(,)?) => { verus!{ $( impl Clone for $n { #[verifier::external_body] fn clone(&self) -> (r: Self) ensures r == *self { unimplemented!() } } )* } } }
 clone_eq!(Address, TransactionInput, TransactionInputs, AuxiliaryData, ScriptDataHash, Ed25519KeyHashes, TxInputsBuilder,
     CertificatesBuilder, WithdrawalsBuilder, MintBuilder, VotingBuilder, VotingProposalBuilder, ExUnitPrices, UnitInterval, LinearFee, ReferenceInputsMap);
